@@ -230,7 +230,31 @@ func runCheck(repo, vdir, prop, tier string, seed int64, writeEvidence bool, qui
 	}
 	// bounded stand-ins: functions outside the verifier's reach are exercised on the real code by an oracle with a stated
 	// bound; never counted as proved, but a failing input is a violation with a replay
-	for _, b := range spec.Bounded {
+	boundedList := spec.Bounded
+	if tier == "thorough" {
+		// thorough: every replay oracle of the property is also run as a differential check of the real code against
+		// the property statement (bounded, labelled so, never counted as proved)
+		have := map[string]bool{}
+		for _, b := range boundedList {
+			have[b.Name] = true
+		}
+		var extra []string
+		for _, o := range spec.Oracles {
+			if !have[o] {
+				have[o] = true
+				extra = append(extra, o)
+			}
+		}
+		sort.Strings(extra)
+		for _, o := range extra {
+			boundedList = append(boundedList, struct {
+				Name  string `json:"name"`
+				What  string `json:"what"`
+				Bound string `json:"bound"`
+			}{Name: o, What: "thorough tier: the property's replay oracle run over its whole enumeration (real functions against the property statement)", Bound: "the enumeration reported in result, within a 60 s budget"})
+		}
+	}
+	for _, b := range boundedList {
 		budget := 8 * time.Second
 		if tier == "thorough" {
 			budget = 60 * time.Second
